@@ -298,3 +298,36 @@ pub fn format_reentrant(v: &LibVal, pic: &str) -> Result<(FmtOut, FmtOut, bool),
         (a, b, s1.inner_ok && s2.inner_ok)
     })
 }
+
+thread_local! {
+    static FORMATTERS: std::cell::RefCell<std::collections::HashMap<String, std::rc::Rc<Formatter>>> = std::cell::RefCell::new(std::collections::HashMap::new());
+}
+
+/// `Formatter::parse` through a formatter compiled once per thread and picture and kept for the
+/// whole run (a long-lived formatter, as an application would hold it).
+pub fn parse_long_lived(kind: Kind, text: &str, pic: &str) -> Result<Result<Val, Error>, String> {
+    guarded(|| {
+        let f = FORMATTERS.with(|m| {
+            let mut m = m.borrow_mut();
+            if m.len() > 4096 {
+                m.clear();
+            }
+            match m.get(pic) {
+                Some(f) => Ok(f.clone()),
+                None => Formatter::try_new(pic).map(|f| {
+                    let f = std::rc::Rc::new(f);
+                    m.insert(pic.to_string(), f.clone());
+                    f
+                }),
+            }
+        })?;
+        match kind {
+            Kind::Date => f.parse::<_, Date>(text).map(|x| LibVal::Date(x).to_val()),
+            Kind::Time => f.parse::<_, Time>(text).map(|x| LibVal::Time(x).to_val()),
+            Kind::Ts => f.parse::<_, Timestamp>(text).map(|x| LibVal::Ts(x).to_val()),
+            Kind::Ora => f.parse::<_, OracleDate>(text).map(|x| LibVal::Ora(x).to_val()),
+            Kind::YM => f.parse::<_, IntervalYM>(text).map(|x| LibVal::YM(x).to_val()),
+            Kind::DT => f.parse::<_, IntervalDT>(text).map(|x| LibVal::DT(x).to_val()),
+        }
+    })
+}
